@@ -628,7 +628,7 @@ func ctxSets() []ctxSet {
 
 func c07cases(thorough bool, emit func(c07case)) {
 	maxDepth := 3
-	sizes := []int{0, 1, 2, 3, 12, 13, 14, 17, 33}
+	sizes := []int{0, 1, 2, 3, 12, 13, 14, 17, 33, 80}
 	if thorough {
 		maxDepth = 4
 		sizes = append(sizes, 64)
